@@ -37,6 +37,9 @@ def make_plan(prop, rng, idx, tier, variant="asan"):
         if m < 7:
             return hist.gen_history(rng, "C14", sweep=True), "bomb-sweep"
         if m < 8:
+            if (idx // 10) % 2 == 0:
+                from . import cli
+                return cli.make_failing_plan(rng, idx)
             return hist.gen_mustfail(rng), "must-fail"
         return hist.gen_history(rng, "C14", faults=True), "faults"
     if prop == "C19":
@@ -45,22 +48,26 @@ def make_plan(prop, rng, idx, tier, variant="asan"):
     raise ValueError(prop)
 
 
+def is_cli(plan):
+    return bool(plan.get("knobs", {}).get("cli"))
+
+
 def run(z, plan, prop):
-    if prop == "C19":
+    if prop == "C19" or is_cli(plan):
         from . import cli
-        return cli.simulate(z, plan)
+        return cli.simulate(z, plan, clause_only=(prop != "C19"))
     return E.simulate(z, plan, prop)
 
 
 def gate(z, plan, prop, klass, fp):
-    if prop == "C19":
+    if prop == "C19" or is_cli(plan):
         from . import cli
-        return cli.gate(z, plan, klass, fp)
+        return cli.gate(z, plan, klass, fp, clause_only=(prop != "C19"))
     return E.gate(z, plan, prop, klass, fp)
 
 
 def minimise(z, plan, prop, klass):
-    if prop == "C19":
+    if prop == "C19" or is_cli(plan):
         from . import cli
-        return cli.minimise(z, plan, klass)
+        return cli.minimise(z, plan, klass, clause_only=(prop != "C19"))
     return E.minimise(z, plan, prop, klass)
